@@ -38,7 +38,8 @@ RULE = ("(0) lits-X: the literal parameters of the models (Model.ClusterLits: 1e
         "code's own answer at the differing query rows changes under a 1e-13 relative perturbation of the fitted parameters. Non-trivial = at least one cluster examined. "
         "(iii) replicate-T: real fit on (X, integer c) vs fit on np.repeat(X, c) under the same random_state, tolerance 1e-6 relative. "
         "(iv) property-R: the statement's invariants checked directly on every real mixture of gmmfit-T and every real hierarchical model of hfit-T "
-        "(no model involved; a fit or predict that raises is a failure).")
+        "(no model involved; a fit or predict that raises is a failure); plus 24 / 400 sequences of 2-4 fits of ONE shared hierarchical object (same, jittered or new "
+        "data with more separable groups than a cap of 2-4 allows): the invariants after every fit, and bit-equality with a fresh object fitted on the same data.")
 MODELLED = ["the numpy idioms of cluster.py are read by translator G18 through the fixed vocabulary Model/NpSrc.lean (column slices, left-to-right sums, entrywise axis-0 reductions and dot products, row-wise axis-1 reductions, x**2 = x*x, C + eye*s as adding s on the diagonal); Props/C15Source.lean proves the models equal to the generated terms",
             "scipy.stats.multivariate_normal is represented by the same Gaussian log-density computed through a Cholesky factor (lower triangle read); scipy's "
             "eigenvalue test that REFUSES a covariance (LinAlgError/ValueError) is an uninterpreted oracle `sing : matrix -> Bool` — every theorem is for "
@@ -1183,6 +1184,55 @@ def check_hgmm_invariants(hg, X, w, kw, exd, preds, nq):
     return None
 
 
+def oracle_refit(datasets, kw):
+    """the SAME HierarchicalGaussianMixture object fitted again and again (as the Trainer does with the shared clusterer): after
+    EVERY fit the statement's invariants must hold (K <= max_iterations + 1, every point one label in [0,K), sizes >= min_points,
+    weights sum to 1, predict in range) and the re-fitted object must equal a FRESH object fitted on the same data, bit for bit
+    (a fit has no memory).  `datasets` = [(X, w), ...].  Returns a description of the first failure or None."""
+    from tempest.cluster import HierarchicalGaussianMixture
+    shared = HierarchicalGaussianMixture(**kw)
+    with warnings.catch_warnings(), np.errstate(all="ignore"):
+        warnings.simplefilter("ignore")
+        for t, (X, w) in enumerate(datasets):
+            X = np.asarray(X, dtype=float)
+            w = None if w is None else np.asarray(w, dtype=float)
+            shared.fit(X, w)
+            Q = X[: min(8, len(X))]
+            preds = real_predictions(shared, Q)
+            msg = check_hgmm_invariants(shared, X, w, kw, [], preds, len(Q))
+            if msg:
+                return f"fit number {t + 1} of the same object: {msg}"
+            fresh = HierarchicalGaussianMixture(**kw).fit(X, w)
+            if int(fresh.n_clusters_) != int(shared.n_clusters_) or not np.array_equal(fresh.labels_, shared.labels_):
+                return (f"fit number {t + 1} of the same object differs from a fresh object on the same data: n_clusters_ "
+                        f"{int(shared.n_clusters_)} vs {int(fresh.n_clusters_)} (cap {kw['max_iterations'] + 1})")
+            for a, b in zip(shared.cluster_centers_, fresh.cluster_centers_):
+                if not np.array_equal(np.asarray(a), np.asarray(b), equal_nan=True):
+                    return f"fit number {t + 1} of the same object: cluster_centers_ differ from a fresh object's on the same data"
+    return None
+
+
+def gen_refit_case(rs, i):
+    """a sequence of 2-4 data sets (the same one again, a jittered / grown copy, or a new draw) with MORE separable groups than a
+    small finite cap allows, for one shared object"""
+    X, w, kw, meta = gen_multi_split_case(rs, i)
+    kw = dict(kw, max_iterations=int(rs.randint(1, 4)), min_points=[None, 8, 5][int(rs.randint(0, 3))])
+    seq = [(X, w)]
+    for _ in range(int(rs.randint(1, 4))):
+        u = rs.rand()
+        if u < 0.4:
+            seq.append((X, w))
+        elif u < 0.8:
+            seq.append((X + rs.normal(0, 0.05, X.shape), w))
+        else:
+            X2, w2, _, _ = gen_multi_split_case(rs, i + 1)
+            if X2.shape[1] == X.shape[1]:
+                seq.append((X2, w2))
+            else:
+                seq.append((X[rs.permutation(len(X))], None))
+    return seq, kw, meta
+
+
 def _split_near_tie(exd, tol=1e-9):
     """does some decision of the real split loop hang on a margin below the tolerance (score against threshold, or
     against the best score so far)?"""
@@ -1250,6 +1300,20 @@ def _corr_hier(tier, drv, cp):
         lines.append(hfit_line(X, w, kw, Q, n_init, uniq[:12]))
         cases.append(dict(X=X, w=w, kw=kw, meta=meta, hg=hg, ex=exd, final=final, conflict=conflict, minpts=minpts, Q=Q,
                           preds=preds, log=log, n_init=n_init, n_refused=len(uniq)))
+    # the same object fitted several times (statelessness, and the cap after EVERY fit)
+    rng_r = common.rng_for("C15.refit")
+    for i in range(24 if tier == "quick" else 400):
+        rs = _np_rng(rng_r)
+        seq, kw_r, meta_r = gen_refit_case(rs, i)
+        cp.case(("refit", meta_r["shape"], str(kw_r), _sha(seq[0][0])), True)
+        cp.count("refit_sequences")
+        cp.count("refit_fits", len(seq))
+        try:
+            msg = oracle_refit(seq, kw_r)
+        except Exception as ex:  # noqa
+            msg = f"raised {type(ex).__name__}: {str(ex)[:120]}"
+        if msg:
+            cp.disagree(what=msg, suite_kind="refit", seq=[(a, b) for a, b in seq], kw=kw_r)
     res = drv.batch(lines)
     for j, cs in enumerate(cases):
         line, ans = lines[2 * j], res[2 * j]
@@ -1576,6 +1640,8 @@ def _run_oracle(f):
             return oracle_gmm(f["X"], f["w"], f["k"], f["ct"], f["seed"], f.get("n_init", 1), f.get("max_iter", 1000), f.get("tol", 1e-3))
         if kind == "hgmm":
             return oracle_hgmm(f["X"], f["w"], f["kw"], f["queries"])
+        if kind == "refit":
+            return oracle_refit([(a, b) for a, b in f["seq"]], f["kw"])
         if kind == "replicate":
             return oracle_replicate(f["X"], f["cnt"], f["k"], f["ct"], f["seed"])
     except Exception as e:  # noqa
@@ -1597,8 +1663,16 @@ def search(tier, hints):
         rs = _np_rng(rng)
         X, w, kw, _ = gen_multi_split_case(rs, i)
         cands.append(dict(kind="hgmm", X=X.tolist(), w=_tolist(w), kw=kw, queries=_queries(rs, X)))
+    #    ... and the same object fitted several times under a small finite cap
+    for i in range(20 if tier == "quick" else 200):
+        rs = _np_rng(rng)
+        seq, kw_r, _ = gen_refit_case(rs, i)
+        cands.append(dict(kind="refit", seq=[[_tolist(a), _tolist(b)] for a, b in seq], kw=kw_r))
     # 1. inputs on which model and code disagreed
     for h in hints:
+        if h.get("suite_kind") == "refit":
+            cands.insert(0, dict(kind="refit", seq=[[_tolist(a), _tolist(b)] for a, b in h["seq"]], kw=h["kw"]))
+            continue
         sk = h.get("suite_kind")
         rs = _np_rng(rng)
         if sk == "split":
